@@ -143,7 +143,7 @@ def mk_history(H, W, nsteps):
                 if T0 is Door:
                     want = expect[1] if (expect is not None and expect[0] == k) else s0
                     sx.check(isinstance(v, Door) and v.state is want and v.color is c0, f'door-rule-step{step}', f'{k}: {s0} -> {getattr(v, "state", v)} expected {want}')
-                    sx.check(blocks(v) == (v.state is not Door.Status.OPEN), f'door-flags-follow-its-status-step{step}', f'{k}: {v!r} blocks_movement={v.blocks_movement} blocks_vision={v.blocks_vision}')
+                    sx.check(bool(v.blocks_movement) == (v.state is not Door.Status.OPEN), f'door-blocks-movement-iff-not-open-step{step}', f'{k}: {v!r} blocks_movement={v.blocks_movement}')
             if expect is not None and expect[0] not in before:
                 v = state.grid.objects[expect[0][0]][expect[0][1]]
                 sx.check(isinstance(v, Door) and v.state is expect[1] and v.color is expect[2], f'faced-door-rule-step{step}')
